@@ -343,7 +343,33 @@ impl<'t, 'a> FnGen<'t, 'a> {
         let g = self.globals[0].clone();
         let f = self.funcs[self.t.pick(self.funcs.len())].clone();
         let ok_args: Vec<Expr> = (0..f.params.len()).map(|_| num(1.0)).collect();
-        let (tag, stmts): (&'static str, Vec<Stmt>) = match self.t.pick(19) {
+        let (tag, stmts): (&'static str, Vec<Stmt>) = match self.t.pick(20) {
+            19 => {
+                // a block whose ONLY statement that can create a variable is of one particular kind: the variable is
+                // local to that block all the same, reading it afterwards is a runtime error
+                let loc = self.fresh();
+                let q = self.queue.clone();
+                let declare = match self.t.pick(7) {
+                    0 => Stmt::Pop { array: pvar(&q), dest: Some(lhs(&loc)) },
+                    1 => Stmt::Push { array: pvar(&loc), value: Some(PushRhs::List(vec![num(1.0)])) },
+                    2 => Stmt::Mutation { op: MutOp::Cut, operand: Primary::Lit(Lit::Str("a,b".into())), dest: Some(lhs(&loc)), param: Some(strlit(",")) },
+                    3 => Stmt::PoeticNum { dest: lhs(&loc), rhs: PoeticRhs::Literal(vec![PoeticElem::Word("fire".into())]) },
+                    4 => Stmt::PoeticStr { dest: lhs(&loc), text: "some words".into() },
+                    5 => Stmt::Mutation { op: MutOp::Cast, operand: Primary::Lit(Lit::Str("12".into())), dest: Some(lhs(&loc)), param: None },
+                    _ => Stmt::Assign { dest: lhs(&loc), value: vec![num(3.0)], op: None },
+                };
+                let inner = vec![declare, say(var(&loc))];
+                let block = match self.t.pick(3) {
+                    0 => Stmt::If { cond: lit(Lit::Bool(true)), then: inner, els: None },
+                    1 => Stmt::If { cond: lit(Lit::Bool(false)), then: vec![], els: Some(inner) },
+                    _ => {
+                        let mut body = inner;
+                        body.push(Stmt::Break);
+                        Stmt::While { cond: lit(Lit::Bool(true)), body }
+                    }
+                };
+                ("single_declaring_statement_in_block", vec![block, say(strlit("after")), say(var(&loc))])
+            }
             18 => {
                 // a repeated parameter name is an error when the function is called, not when it is defined
                 let (dup, p) = (self.fresh(), self.fresh());
